@@ -1378,3 +1378,23 @@ mut(
 """,
     expect="ok",
 )
+
+PAU = "cdd/shared/parse/utils/parser_utils.py"
+mut(
+    "c18-import-time-dispatch-through-get-parser",
+    "C18",
+    "C18.import",
+    PAU,
+    "__all__ = [\n    \"_inspect\",\n    \"get_parser\",",
+    "_function_parser, _class_parser = map(partial(get_parser, None), (\"function\", \"class\"))\n\n__all__ = [\n    \"_inspect\",\n    \"get_parser\",",
+    mention=("get_parser",),
+)
+mut(
+    "c18-import-time-call-harmless",  # a pure helper called at import time after its definition: must NOT be reported
+    "C18",
+    "C18.import",
+    PAU,
+    "__all__ = [\n    \"_inspect\",\n    \"get_parser\",",
+    "_PLAIN_LIST = lstrip_typings(\"typings.List\")\n\n__all__ = [\n    \"_inspect\",\n    \"get_parser\",",
+    expect="ok",
+)
